@@ -180,12 +180,15 @@ class DLTypeContext:
                 dimension_expression.is_literal
                 and dimension_expression.identifier not in self.tensor_shape_map
             ):
-                # handled by the check method above
+                # the value is handled by the check method above
                 _logger.debug(
                     "Skipping literal dimension %r (%s)",
                     dimension_expression,
                     self.tensor_shape_map,
                 )
+                if not dimension_expression.identifier.isnumeric():
+                    # a named literal (i.e. rgb=3) also establishes its name
+                    self.tensor_shape_map[dimension_expression.identifier] = actual_shape[dim_idx]
                 continue
 
             if (
